@@ -282,6 +282,8 @@ func GenSProgram(t *rapid.T, cfg SGenCfg) SProgram {
 				blocks += rapid.IntRange(1, 16).Draw(t, "grow")
 				total = int64(blocks) * 8
 				o.N = int64(blocks)
+				// the size as the API takes it: plain bytes, or with a unit ("52k", "52kb", "52KiB")
+				o.Reps = rapid.IntRange(0, 5).Draw(t, "sizespelling")
 			case 5:
 				o.N = int64(blocks)
 			case 6:
